@@ -77,6 +77,29 @@ def check_vec(ctx, config, rule):
         ex = own_calls(r, trait='Extend::extend')
         okv = len(ex) == 1 and ex[0].args[0] == SELF and ex[0].args[1][0] == 'call' and ex[0].args[1][1].endswith('::cloned') and ex[0].args[1][2][0][0] == 'call' and ex[0].args[1][2][0][2] == (('param', 2),)
         C.check('Vec::extend(&T)', 'forwards to extend(iter.into_iter().cloned())', okv, '', b.get('span'))
+    # ---- extend_from_slice / extend_from_slices_copy
+    bs = [b for b in db.fn_bodies() if b['kind'] == 'assoc_fn' and (b['meta'].get('impl_adt') or '').endswith('vec::Vec') and b['meta'].get('name') == 'extend_from_slice' and not b['meta'].get('impl_trait')]
+    for b in bs:
+        I, r = arena.run_fn(ctx, b['id'], config)
+        ex = own_calls(r, trait='Extend::extend')
+        okv = len(ex) == 1 and ex[0].args[0] == SELF and ex[0].args[1][0] == 'call' and ex[0].args[1][1].endswith('::cloned') and ex[0].args[1][2][0][0] == 'call' and ex[0].args[1][2][0][2] == (('param', 2),)
+        C.check('Vec::extend_from_slice', 'extend(other.iter().cloned())', okv, '', b.get('span'))
+    bs = [b for b in db.fn_bodies() if b['kind'] == 'assoc_fn' and (b['meta'].get('impl_adt') or '').endswith('vec::Vec') and b['meta'].get('name') == 'extend_from_slices_copy']
+    for b in bs:
+        I, r = arena.run_fn(ctx, b['id'], config)
+        tf = own_calls(r, trait='Iterator::try_fold')
+        rs = own_calls(r, "Vec::<'bump, T>::reserve")
+        fe = [e for e in own_calls(r) if (e.extra.get('trait_path') or e.callee or '').endswith('for_each')]
+        okv = len(tf) == 1 and tf[0].args[1] == ('c', 0) and len(rs) == 1 and rs[0].args[0] == SELF and tf[0].ret in subterms(rs[0].args[1]) and len(fe) == 1 and r.events.index(rs[0]) < r.events.index(fe[0])
+        cls = sorted([x for x in db.fn_bodies() if x['kind'] == 'closure' and x['id'].startswith(b['id'] + '::{closure')], key=lambda x: x['id'])
+        okc = False
+        if len(cls) == 2:
+            I0, r0 = arena.run_fn(ctx, cls[0]['id'], config)
+            I1, r1 = arena.run_fn(ctx, cls[1]['id'], config)
+            ca = [e for e in r0.events if e.kind == 'call' and (e.callee or '').endswith('checked_add')]
+            un = [e for e in r1.events if e.kind == 'call' and (e.callee or '').endswith('::extend_from_slice_copy_unchecked')]
+            okc = len(ca) == 1 and ca[0].args[0] == ('param', 2) and ca[0].args[1][0] == 'app' and ca[0].args[1][1] == 'len' and r0.ret == ('app', 'checked_add', ca[0].args[0], ca[0].args[1]) and len(un) == 1 and 'upvar0' in show(un[0].args[0])
+        C.check('Vec::extend_from_slices_copy', 'reserve(checked sum of the slice lengths) once, then each slice appended without further checks, in order', okv and okc, '', b.get('span'))
     # ---- from_iter_in
     bs = [b for b in db.fn_bodies() if b['kind'] == 'assoc_fn' and (b['meta'].get('impl_adt') or '').endswith('vec::Vec') and b['meta'].get('name') == 'from_iter_in' and not b['meta'].get('impl_trait')]
     for b in bs:
@@ -137,7 +160,7 @@ def check_vec(ctx, config, rule):
         cc = own_calls(r, trait='CollectIn::collect_in')
         okc = own_calls(r, 'Result::<T, E>::ok')
         C.check('FromIteratorIn for Option', 'collects ok_or(()) items as a Result and returns .ok() of it', len(cc) == 1 and cc[0].args[1] == ('param', 2) and len(okc) == 1 and okc[0].args[0] == cc[0].ret and r.ret == okc[0].ret, '', b.get('span'))
-    ctx.floor(rule, C.n, 15, 'composition clauses for Vec trait impls and collect_in')
+    ctx.floor(rule, C.n, 17, 'composition clauses for Vec trait impls and collect_in')
 
 
 def check_string(ctx, config, rule):
